@@ -52,7 +52,9 @@ Definition exec_report (st ex ms : N) : N :=
   else ERR.
 
 Definition cancel_reject (st ms : N) : N :=
-  row [(CREATED, ERR); (ACCEPTED_FOR_BIDDING, ERR)] T ms.
+  if st =? CREATED then ERR
+  else if mem st [FILLED; CANCELED; REJECTED; EXPIRED] then IGN
+  else row [(CREATED, ERR); (ACCEPTED_FOR_BIDDING, ERR)] T ms.
 
 Definition request (st : N) : N :=
   if mem st [PENDING_CANCEL; PENDING_REPLACE] then IGN
